@@ -474,12 +474,19 @@ def load_table_v2(
         try:
             dialect = csv.Sniffer().sniff(data, delimiters=valid_delimiters_str)
         except csv.Error as exc:
-            raise ValueError("Cannot find the separator") from exc
+            # No delimiter found: this is a table with a single column of numbers
+            # (like in 'load_table') or a table with an unknown delimiter
+            try:
+                np.loadtxt(StringIO(data), ndmin=1, skiprows=1 if header else 0)
+            except ValueError:
+                raise ValueError("Cannot find the separator") from exc
 
-        delimiter: str = dialect.delimiter
+            delimiter: str | None = None
+        else:
+            delimiter = dialect.delimiter
 
-        if delimiter not in valid_delimiters:
-            raise ValueError(f"Cannot find the separator. {delimiter=!r}")
+            if delimiter not in valid_delimiters:
+                raise ValueError(f"Cannot find the separator. {delimiter=!r}")
 
         with StringIO(data) as file_handler:
             if suffix.startswith(".csv"):
